@@ -351,7 +351,12 @@ class Flattener:
 
     def _inline_in_expr(self, e: ast.AST, ctx: FuncInfo, stack, depth, rename, pre: List[ast.stmt]) -> ast.AST:
         # do not look inside lambdas / comprehensions (their evaluation is not "here")
-        if isinstance(e, (ast.Lambda, ast.ListComp, ast.SetComp, ast.DictComp, ast.GeneratorExp)):
+        if isinstance(e, (ast.ListComp, ast.SetComp, ast.DictComp, ast.GeneratorExp)):
+            # only the first iterable is evaluated here (in the enclosing scope, before the comprehension runs)
+            g0 = e.generators[0]
+            g0.iter = self._inline_in_expr(g0.iter, ctx, stack, depth, rename, pre)
+            return e
+        if isinstance(e, ast.Lambda):
             return e
         for fld, val in ast.iter_fields(e):
             if isinstance(val, ast.AST):
